@@ -131,6 +131,10 @@ class Lib:
     def path_loc(self, it, p, what="file"):
         """Map a path value to the abstract location it denotes (contract of the path algebra)."""
         p = self.as_path(it, p)
+        if it.ctx.__dict__.get("memo_stack"):
+            it.ctx.fail("memo/memoised-function-depends-only-on-its-arguments",
+                        f"{it.ctx.memo_stack[-1]} accesses the file system; its cached result "
+                        "outlives a change of the file")
         if isinstance(p, VObj) and p.cls == "file":
             raise Undecided("file object used as path")
         if isinstance(p, (VStr, VDyn)):
@@ -574,8 +578,17 @@ class Lib:
     # ==========================================================================================
     def getattr(self, it, obj, name):
         if isinstance(obj, VExt):
+            from .interp import EXT_CONSTS
+            if obj.name + "." + name in EXT_CONSTS:
+                return VStr(EXT_CONSTS[obj.name + "." + name])
+            if obj.name.startswith("class:") and f"{obj.name[6:]}.{name}" in it.eng.funcs:
+                q = f"{obj.name[6:]}.{name}"      # Class.method: the plain function
+                return VFunc(it.eng.funcs[q], None, q)
             return VExt(obj.name + "." + name)
         if isinstance(obj, VObj):
+            if it.ctx.__dict__.get("memo_stack") and obj.cls in it.eng.classes and name in obj.f:
+                it.ctx.fail("memo/memoised-function-depends-only-on-its-arguments",
+                            f"{it.ctx.memo_stack[-1]} reads instance field {name}")
             g = obj.f.get("_guards", {}).get(name)
             if g is not None:
                 if not it.ctx.branch(g):
